@@ -72,6 +72,31 @@ theorem ctxAfter_cons (c : Ctx) (v : Item δ) (vs : List (Item δ)) :
 theorem fillAll_cons (m : Machine σ ι ο) (s : σ) (v : ι) (vs : List ι) :
     m.fillAll s (v :: vs) = m.fillAll (m.fill s v).1 vs := rfl
 
+/-- `dict.update({k: v})` changes the binding of `k` and nothing else: this is the sense in which the yielded
+context is the last filled context "extended only by the element's own keys" (`Count`: its name; `Graph`:
+`scale`, `dim`) -/
+theorem Ctx.get_set (c : Ctx) (k : String) (v : Leaf) (k' : String) :
+    (c.set k v).get k' = if k' = k then v else c.get k' := by
+  induction c with
+  | nil =>
+    by_cases h : k' = k
+    · simp [Ctx.set, Ctx.get, h]
+    · have h' : ¬ k = k' := fun e => h e.symm
+      simp [Ctx.set, Ctx.get, h, h']
+  | cons kv rest ih =>
+    obtain ⟨k₀, v₀⟩ := kv
+    by_cases h0 : k₀ = k
+    · subst h0
+      by_cases h : k' = k₀
+      · subst h; simp [Ctx.set, Ctx.get]
+      · have h' : ¬ k₀ = k' := fun e => h e.symm
+        simp [Ctx.set, Ctx.get, h, h']
+    · by_cases h : k₀ = k'
+      · subst h
+        have h' : ¬ k₀ = k := h0
+        simp [Ctx.set, Ctx.get, h0]
+      · simp [Ctx.set, Ctx.get, h0, h, ih]
+
 /-! ### Count -/
 theorem count_fillAll (cfg : CountCfg) (s : CountSt) (vs : List (Item δ)) :
     (countM δ cfg).fillAll s vs = ⟨s.count + vs.length, ctxAfter s.ctx vs⟩ := by
@@ -338,5 +363,1006 @@ example : ((vmcM ⟨true, false⟩).compute ((vmcM ⟨true, false⟩).fillAll (v
   simp [sqDev, isum, ctxAfter, withCtx, Item.context]
   constructor <;> grind
 
+
+/-! ### DSum: decimals and dyadics as exact rationals -/
+
+theorem rat_pow_ne_zero (b : Rat) (hb : b ≠ 0) (n : Nat) : b ^ n ≠ 0 := by
+  induction n with
+  | zero => simp
+  | succ n ih => rw [Rat.pow_succ]; grind
+
+
+theorem powZ_succ (b : Rat) (hb : b ≠ 0) (e : Int) : powZ b (e + 1) = b * powZ b e := by
+  unfold powZ
+  by_cases h0 : 0 ≤ e
+  · have h1 : 0 ≤ e + 1 := by omega
+    have h2 : (e + 1).toNat = e.toNat + 1 := by omega
+    simp only [h0, h1, if_true, h2]
+    grind
+  · by_cases h1 : e = -1
+    · subst h1
+      simp
+      grind
+    · have h2 : ¬ 0 ≤ e + 1 := by omega
+      have h3 : (-e).toNat = (-(e + 1)).toNat + 1 := by omega
+      simp only [h0, h2, if_false, h3]
+      have := rat_pow_ne_zero b hb (-(e + 1)).toNat
+      grind
+
+theorem powZ_add_nat (b : Rat) (hb : b ≠ 0) (e : Int) (k : Nat) : powZ b (e + k) = b ^ k * powZ b e := by
+  induction k with
+  | zero => simp
+  | succ k ih =>
+    have : e + ((k + 1 : Nat) : Int) = (e + k) + 1 := by omega
+    rw [this, powZ_succ b hb, ih, Rat.pow_succ]
+    grind
+
+
+theorem powZ_of_le (b : Rat) (hb : b ≠ 0) (e x : Int) (h : e ≤ x) :
+    powZ b x = b ^ (x - e).toNat * powZ b e := by
+  have : x = e + ((x - e).toNat : Int) := by omega
+  conv => lhs; rw [this]
+  exact powZ_add_nat b hb e _
+
+/-- `Dec.add` is exact -/
+theorem Dec.add_toRat (a b : Dec) : (a.add b).toRat = a.toRat + b.toRat := by
+  simp only [Dec.add, Dec.toRat]
+  have ha := powZ_of_le 10 (by decide) (min a.exp b.exp) a.exp (by omega)
+  have hb := powZ_of_le 10 (by decide) (min a.exp b.exp) b.exp (by omega)
+  rw [ha, hb]
+  simp only [Rat.intCast_add, Rat.intCast_mul, Rat.intCast_pow]
+  simp
+  grind
+
+
+theorem rat_mul_pow (a b : Rat) (n : Nat) : (a * b) ^ n = a ^ n * b ^ n := by
+  induction n with
+  | zero => simp
+  | succ n ih => simp only [Rat.pow_succ, ih]; grind
+
+/-- `Decimal(x)` is exact -/
+theorem Dec.ofDy_toRat (x : Dy) : (Dec.ofDy x).toRat = x.toRat := by
+  unfold Dec.ofDy Dec.toRat Dy.toRat powZ
+  by_cases h : 0 ≤ x.e
+  · simp [h, Rat.intCast_mul, Rat.intCast_pow]
+  · have h10 : (10 : Rat) = 2 * 5 := by grind
+    have h2 := rat_pow_ne_zero 2 (by decide) (-x.e).toNat
+    have h5 := rat_pow_ne_zero 5 (by decide) (-x.e).toNat
+    simp only [h, if_false, Rat.intCast_mul, Rat.intCast_pow, h10, rat_mul_pow]
+    simp
+    grind
+
+/-- the precision loop returns the exact sum, whatever the precision it starts from -/
+theorem DSum.addLoop_total (total d : Dec) (prec : Nat) : (DSum.addLoop total d prec).1 = total.add d := by
+  fun_induction DSum.addLoop total d prec with
+  | case1 prec r h => simp [ctxAdd] at h; grind
+  | case2 prec h ih => exact ih
+
+/-- ... and ends with a precision that is large enough, and not smaller than before -/
+theorem DSum.addLoop_prec (total d : Dec) (prec : Nat) :
+    prec ≤ (DSum.addLoop total d prec).2 ∧ (total.add d).fits (DSum.addLoop total d prec).2 = true := by
+  fun_induction DSum.addLoop total d prec with
+  | case1 prec r h => simp [ctxAdd] at h; grind
+  | case2 prec h ih => exact ⟨by omega, ih.2⟩
+
+
+/-- the loop raises the precision no further than needed: every precision it passed was too small -/
+theorem DSum.addLoop_prec_minimal (total d : Dec) (prec : Nat) :
+    ∀ p, prec ≤ p → p < (DSum.addLoop total d prec).2 → (total.add d).fits p = false := by
+  fun_induction DSum.addLoop total d prec with
+  | case1 prec r h => intro p h1 h2; omega
+  | case2 prec h ih =>
+    intro p h1 h2
+    by_cases hp : p = prec
+    · subst hp
+      simp [ctxAdd] at h
+      simpa using h
+    · exact ih p (by omega) h2
+
+/-- the exact sum of the filled floats -/
+def dySum (vs : List (Item Dy)) : Rat := (vs.map (fun v => v.data.toRat)).sum
+
+theorem dsum_fillAll (t0 : Dec) (s : DSumSt) (vs : List (Item Dy)) :
+    ((dsumM t0).fillAll s vs).total.toRat = s.total.toRat + dySum vs
+    ∧ ((dsumM t0).fillAll s vs).ctx = ctxAfter s.ctx vs
+    ∧ s.prec ≤ ((dsumM t0).fillAll s vs).prec := by
+  induction vs generalizing s with
+  | nil => simp [Machine.fillAll, ctxAfter, dySum, Rat.add_zero]
+  | cons v vs ih =>
+    rw [fillAll_cons, ctxAfter_cons]
+    have := ih ((dsumM t0).fill s v).1
+    have hp := (DSum.addLoop_prec s.total (Dec.ofDy v.data) s.prec).1
+    simp only [dsumM, DSum.fill, DSum.addLoop_total, Dec.add_toRat, Dec.ofDy_toRat] at this hp ⊢
+    refine ⟨?_, this.2.1, by omega⟩
+    rw [this.1]
+    simp [dySum]
+    grind
+
+/-- `dsum_exact`: DSum yields a Decimal whose value is the initial total plus the exact sum of the filled
+floats — no rounding error, for every sequence of floats (the precision loop terminates: `DSum.addLoop` is
+a total function) — together with the context of the last filled value -/
+theorem dsum_exact (t0 : Dec) (vs : List (Item Dy)) :
+    ∃ d : Dec, ((dsumM t0).compute ((dsumM t0).fillAll (dsumM t0).init vs)).2 = .ok [withCtx d (ctxAfter [] vs)]
+      ∧ d.toRat = t0.toRat + dySum vs := by
+  have h := dsum_fillAll t0 (dsumM t0).init vs
+  refine ⟨((dsumM t0).fillAll (dsumM t0).init vs).total, ?_, h.1⟩
+  simp only [dsumM, DSum.compute] at h ⊢
+  rw [h.2.1]
+
+/-- DSum after `reset()`: the total is `Decimal(0)` and the context `{}`; the raised precision stays, but
+it never shows (the loop returns the exact sum from any precision), so every later history shows what it
+shows on `DSum()` -/
+theorem dsum_reset_fresh (t0 : Dec) (h1 h2 : List (Op (Item Dy))) :
+    ((dsumM t0).run ((dsumM t0).run (dsumM t0).init (h1 ++ [Op.reset])).1 h2).2 = (dsumM ⟨0, 0⟩).observe h2 := by
+  apply reset_bisimilar (dsumM t0) (dsumM ⟨0, 0⟩) (fun _ => True) (fun s t => s.total = t.total ∧ s.ctx = t.ctx)
+    trivial (fun _ _ _ => trivial)
+  · intro s _
+    simp [dsumM, DSum.reset]
+  · intro s t op hst
+    cases op with
+    | fill v => simp [Machine.step, dsumM, DSum.fill, DSum.addLoop_total, hst.1]
+    | compute => simp [Machine.step, dsumM, DSum.compute, hst.1, hst.2]
+    | reset => simp [Machine.step, dsumM, DSum.reset]
+
+/-- the tiniest float and a huge one: 1105 digits are needed, and the sum is exact -/
+example : ((dsumM ⟨0, 0⟩).fillAll (dsumM ⟨0, 0⟩).init [⟨⟨1, -1074⟩, none⟩, ⟨⟨1, 100⟩, some [("a", some 1)]⟩]).prec = 1105 := by
+  decide +kernel
+
+
+section GroupBy
+variable {κ ι : Type} [DecidableEq κ]
+
+/-! ### GroupBy -/
+
+/-- `groups.get(k, [])` -/
+def groupLookup : List (κ × List ι) → κ → List ι
+  | [], _ => []
+  | (k', g) :: rest, k => if k' = k then g else groupLookup rest k
+
+/-- the keys in the order of their first occurrence -/
+def firstKeys (ks : List κ) : List κ := ks.foldl (fun acc k => if k ∈ acc then acc else acc ++ [k]) []
+
+theorem groupInsert_keys (s : List (κ × List ι)) (k : κ) (v : ι) :
+    (groupInsert s k v).map (·.1) = if k ∈ s.map (·.1) then s.map (·.1) else s.map (·.1) ++ [k] := by
+  induction s with
+  | nil => simp [groupInsert]
+  | cons kg rest ih =>
+    obtain ⟨k', g⟩ := kg
+    by_cases h : k' = k
+    · subst h; simp [groupInsert]
+    · have h' : ¬ k = k' := fun e => h e.symm
+      simp only [groupInsert, h, if_false, List.map_cons, ih, List.mem_cons, h', false_or]
+      split <;> simp
+
+theorem groupInsert_lookup (s : List (κ × List ι)) (k : κ) (v : ι) (k₁ : κ) :
+    groupLookup (groupInsert s k v) k₁ = if k₁ = k then groupLookup s k ++ [v] else groupLookup s k₁ := by
+  induction s with
+  | nil =>
+    by_cases h : k₁ = k
+    · simp [groupInsert, groupLookup, h]
+    · have h' : ¬ k = k₁ := fun e => h e.symm
+      simp [groupInsert, groupLookup, h, h']
+  | cons kg rest ih =>
+    obtain ⟨k', g⟩ := kg
+    by_cases h : k' = k
+    · subst h
+      by_cases h1 : k₁ = k' <;> simp [groupInsert, groupLookup, h1, eq_comm]
+    · by_cases h1 : k₁ = k
+      · subst h1
+        simp [groupInsert, groupLookup, h, ih]
+      · by_cases h2 : k' = k₁ <;> simp [groupInsert, groupLookup, h, h1, h2, ih]
+
+
+theorem groupBy_fillAll_aux (s : List (κ × List ι)) (kvs : List (κ × ι)) :
+    ((groupByM κ ι).fillAll s kvs).map (·.1)
+        = (kvs.map (·.1)).foldl (fun acc k => if k ∈ acc then acc else acc ++ [k]) (s.map (·.1))
+    ∧ ∀ k, groupLookup ((groupByM κ ι).fillAll s kvs) k
+        = groupLookup s k ++ (kvs.filter (fun kv => kv.1 = k)).map (·.2) := by
+  induction kvs generalizing s with
+  | nil => simp [Machine.fillAll]
+  | cons kv kvs ih =>
+    rw [fillAll_cons]
+    have := ih ((groupByM κ ι).fill s kv).1
+    simp only [groupByM] at this ⊢
+    refine ⟨?_, ?_⟩
+    · rw [this.1, groupInsert_keys]; simp
+    · intro k
+      rw [this.2 k, groupInsert_lookup]
+      by_cases h : kv.1 = k
+      · subst h; simp
+      · have h' : ¬ k = kv.1 := fun e => h e.symm
+        simp [h, h']
+
+/-- a state with distinct keys is determined by its keys and its lookups -/
+theorem groups_eq_of_nodup (s : List (κ × List ι)) (h : (s.map (·.1)).Nodup) :
+    s = (s.map (·.1)).map (fun k => (k, groupLookup s k)) := by
+  induction s with
+  | nil => rfl
+  | cons kg rest ih =>
+    obtain ⟨k', g⟩ := kg
+    simp only [List.map_cons, List.nodup_cons] at h
+    simp only [List.map_cons, groupLookup, if_true, List.map_map]
+    congr 1
+    conv => lhs; rw [ih h.2]
+    simp only [List.map_map]
+    apply List.map_congr_left
+    intro kg hkg
+    have : k' ≠ kg.1 := by
+      intro e
+      apply h.1
+      rw [e]
+      exact List.mem_map_of_mem hkg
+    simp [Function.comp, this]
+
+
+theorem firstKeys_fold_nodup (ks acc : List κ) (h : acc.Nodup) :
+    (ks.foldl (fun acc k => if k ∈ acc then acc else acc ++ [k]) acc).Nodup := by
+  induction ks generalizing acc with
+  | nil => exact h
+  | cons k ks ih =>
+    simp only [List.foldl_cons]
+    apply ih
+    by_cases hk : k ∈ acc
+    · simp [hk, h]
+    · simp only [hk, if_false]
+      rw [List.nodup_append]
+      refine ⟨h, by simp, ?_⟩
+      intro a ha b hb
+      simp at hb
+      subst hb
+      intro e
+      exact hk (e ▸ ha)
+
+theorem firstKeys_nodup (ks : List κ) : (firstKeys ks).Nodup := firstKeys_fold_nodup ks [] List.nodup_nil
+
+/-- GroupBy yields the filled values themselves: one group per distinct key, in the order in which the keys
+first occurred, each group holding exactly the values with that key in the order they were filled -/
+theorem groupby_compute_spec (kvs : List (κ × ι)) :
+    ((groupByM κ ι).compute ((groupByM κ ι).fillAll (groupByM κ ι).init kvs)).2 =
+      .ok ((firstKeys (kvs.map (·.1))).map
+            (fun k => Stored.group ((kvs.filter (fun kv => kv.1 = k)).map (·.2)))) := by
+  have aux := groupBy_fillAll_aux (ι := ι) [] kvs
+  have hk : ((groupByM κ ι).fillAll [] kvs).map (·.1) = firstKeys (kvs.map (·.1)) := by
+    rw [aux.1]; rfl
+  have hnd := firstKeys_nodup (kvs.map (·.1))
+  rw [← hk] at hnd
+  have hs := groups_eq_of_nodup _ hnd
+  simp only [groupByM] at *
+  rw [hs, hk]
+  simp only [List.map_map]
+  congr 2
+  funext k
+  simp only [Function.comp, aux.2 k, groupLookup, List.nil_append]
+
+/-- the default `GroupBy()` puts every value into one group: values that all have the same key are yielded
+as one group, in fill order -/
+theorem groupby_one_key (k : κ) (kvs : List (κ × ι)) (hne : kvs ≠ []) (hk : ∀ kv ∈ kvs, kv.1 = k) :
+    ((groupByM κ ι).compute ((groupByM κ ι).fillAll (groupByM κ ι).init kvs)).2
+      = .ok [Stored.group (kvs.map (·.2))] := by
+  rw [groupby_compute_spec]
+  have hkeys : firstKeys (kvs.map (·.1)) = [k] := by
+    cases kvs with
+    | nil => exact absurd rfl hne
+    | cons kv rest =>
+      have h0 : kv.1 = k := hk kv (by simp)
+      have hrest : ∀ kv' ∈ rest, kv'.1 = k := fun kv' h => hk kv' (by simp [h])
+      simp only [firstKeys, List.map_cons, List.foldl_cons, List.not_mem_nil, if_false, List.nil_append, h0]
+      clear hk hne h0
+      induction rest with
+      | nil => rfl
+      | cons kv' rest ih =>
+        simp only [List.map_cons, List.foldl_cons]
+        have : kv'.1 = k := hrest kv' (by simp)
+        simp only [this, List.mem_singleton, if_true]
+        exact ih (fun kv'' h => hrest kv'' (by simp [h]))
+  rw [hkeys]
+  simp only [List.map_cons, List.map_nil]
+  congr 3
+  rw [List.filter_eq_self.mpr]
+  intro kv h
+  simp [hk kv h]
+
+theorem groupby_reset_fresh (h1 h2 : List (Op (κ × ι))) :
+    ((groupByM κ ι).run ((groupByM κ ι).run (groupByM κ ι).init (h1 ++ [Op.reset])).1 h2).2
+      = (groupByM κ ι).observe h2 :=
+  reset_fresh_of_const (groupByM κ ι) (groupByM κ ι) rfl rfl rfl (fun _ => rfl) h1 h2
+
+
+end GroupBy
+
+/-! ### Histogram (one dimension) -/
+
+theorem increasing_iff (es : List Int) : increasing es = true ↔ es.Pairwise (· < ·) := by
+  induction es with
+  | nil => simp [increasing]
+  | cons a rest ih =>
+    cases rest with
+    | nil => simp [increasing]
+    | cons b rest' =>
+      simp only [increasing, Bool.and_eq_true, decide_eq_true_eq, ih, List.pairwise_cons]
+      constructor
+      · rintro ⟨hab, hb, hr⟩
+        refine ⟨?_, hb, hr⟩
+        intro c hc
+        rcases List.mem_cons.mp hc with rfl | hc
+        · exact hab
+        · exact Int.lt_trans hab (hb c hc)
+      · rintro ⟨ha, hb, hr⟩
+        exact ⟨ha b (by simp), hb, hr⟩
+
+theorem filter_le_nil_of_lt (es : List Int) (x : Int) (h : ∀ e ∈ es, x < e) : es.filter (fun e => e ≤ x) = [] := by
+  rw [List.filter_eq_nil_iff]
+  intro e he
+  have := h e he
+  simp; omega
+
+/-- the meaning of the bin index for strictly increasing edges: bin `j` is `edges[j] ≤ x < edges[j+1]` -/
+theorem binIndex_spec (es : List Int) (hs : es.Pairwise (· < ·)) (x : Int) (j : Nat) (hj : j + 1 < es.length) :
+    binIndex es x = j ↔ es[j] ≤ x ∧ x < es[j + 1] := by
+  induction es generalizing j with
+  | nil => simp at hj
+  | cons a rest ih =>
+    rw [List.pairwise_cons] at hs
+    by_cases hax : a ≤ x
+    · have hb : binIndex (a :: rest) x = binIndex rest x + 1 := by simp [binIndex, hax]
+      cases j with
+      | zero =>
+        simp only [List.getElem_cons_zero, hax, true_and, List.getElem_cons_succ]
+        rw [hb]
+        cases rest with
+        | nil => simp at hj
+        | cons b rest' =>
+          simp only [List.getElem_cons_zero]
+          by_cases hbx : b ≤ x
+          · simp [binIndex, hbx]; omega
+          · have : (b :: rest').filter (fun e => e ≤ x) = [] := by
+              apply filter_le_nil_of_lt
+              intro e he
+              rcases List.mem_cons.mp he with rfl | he
+              · omega
+              · have := (List.pairwise_cons.mp hs.2).1 e he; omega
+            simp [binIndex, this]; omega
+      | succ j' =>
+        have := ih hs.2 j' (by simp at hj; omega)
+        simp only [List.getElem_cons_succ]
+        rw [hb, ← this]
+        omega
+    · have hnil : (a :: rest).filter (fun e => e ≤ x) = [] := by
+        apply filter_le_nil_of_lt
+        intro e he
+        rcases List.mem_cons.mp he with rfl | he
+        · omega
+        · have := hs.1 e he; omega
+      have hb : binIndex (a :: rest) x = -1 := by simp [binIndex, hnil]
+      rw [hb]
+      constructor
+      · intro h; omega
+      · rintro ⟨h1, _⟩
+        cases j with
+        | zero => simp at h1; omega
+        | succ j' =>
+          simp only [List.getElem_cons_succ] at h1
+          have hj' : j' < rest.length := by simp at hj; omega
+          have := hs.1 rest[j'] (List.getElem_mem hj')
+          omega
+
+
+/-- the value falls into bin `j` -/
+def inBin (es : List Int) (j : Nat) (v : Item Int) : Bool := binIndex es v.data == (j : Int)
+/-- the value is outside the `n` bins -/
+def outOfRange (es : List Int) (n : Nat) (v : Item Int) : Bool :=
+  binIndex es v.data < 0 || (n : Int) ≤ binIndex es v.data
+
+theorem Hist.fill_spec (es : List Int) (h : Hist) (v : Item Int) :
+    (Hist.fill es h v.data).bins.length = h.bins.length
+    ∧ (∀ j, (Hist.fill es h v.data).bins[j]? = (h.bins[j]?).map (fun c => c + if inBin es j v then 1 else 0))
+    ∧ (Hist.fill es h v.data).nOut = h.nOut + if outOfRange es h.bins.length v then 1 else 0 := by
+  unfold Hist.fill inBin outOfRange
+  by_cases h0 : binIndex es v.data < 0
+  · refine ⟨by simp [h0], ?_, by simp [h0]⟩
+    intro j
+    have : ¬ binIndex es v.data = (j : Int) := by omega
+    simp [h0, this]
+  · by_cases h1 : (binIndex es v.data).toNat < h.bins.length
+    · have hno : ¬ ((h.bins.length : Int) ≤ binIndex es v.data) := by omega
+      refine ⟨by simp [h0, h1], ?_, by simp [h0, h1, hno]⟩
+      intro j
+      simp only [h0, h1, if_false, if_true, List.getElem?_modify]
+      by_cases hj : (binIndex es v.data).toNat = j
+      · have : binIndex es v.data = (j : Int) := by omega
+        simp [this]
+      · have : ¬ binIndex es v.data = (j : Int) := by omega
+        simp [hj, this]
+    · have hno : (h.bins.length : Int) ≤ binIndex es v.data := by omega
+      refine ⟨by simp [h0, h1], ?_, by simp [h0, h1, hno]⟩
+      intro j
+      simp only [h0, h1, if_false]
+      by_cases hj : binIndex es v.data = (j : Int)
+      · have : h.bins.length ≤ j := by omega
+        simp [hj, List.getElem?_eq_none this]
+      · simp [hj]
+
+
+theorem hist_fillAll (cfg : HistCfg) (s0 s : HistSt) (vs : List (Item Int)) :
+    ((histogramM cfg s0).fillAll s vs).hist.bins.length = s.hist.bins.length
+    ∧ (∀ j, ((histogramM cfg s0).fillAll s vs).hist.bins[j]?
+        = (s.hist.bins[j]?).map (fun (c : Int) => c + ((vs.countP (inBin cfg.edges j) : Nat) : Int)))
+    ∧ ((histogramM cfg s0).fillAll s vs).hist.nOut
+        = s.hist.nOut + ((vs.countP (outOfRange cfg.edges s.hist.bins.length) : Nat) : Int)
+    ∧ ((histogramM cfg s0).fillAll s vs).ctx = ctxAfter s.ctx vs := by
+  induction vs generalizing s with
+  | nil =>
+    simp only [Machine.fillAll, List.foldl_nil, List.countP_nil, ctxAfter_nil]
+    refine ⟨by simp, ?_, by simp, by simp⟩
+    intro j; cases s.hist.bins[j]? <;> simp
+  | cons v vs ih =>
+    have hstep := Hist.fill_spec cfg.edges s.hist v
+    have := ih ((histogramM cfg s0).fill s v).1
+    rw [fillAll_cons]
+    have e : ((histogramM cfg s0).fill s v).1 = ⟨Hist.fill cfg.edges s.hist v.data, v.context⟩ := rfl
+    rw [e] at this ⊢
+    obtain ⟨hl, hb, ho, hc⟩ := this
+    simp only at hl hb ho hc
+    refine ⟨by rw [hl, hstep.1], ?_, ?_, ?_⟩
+    · intro j
+      rw [hb j, hstep.2.1 j]
+      cases s.hist.bins[j]? with
+      | none => simp
+      | some c =>
+        simp only [Option.map_some, List.countP_cons]
+        congr 1
+        split <;> simp <;> omega
+    · rw [ho, hstep.2.2, hstep.1]
+      simp only [List.countP_cons]
+      split <;> simp <;> omega
+    · rw [hc, ctxAfter_cons]
+
+/-- the bins `Histogram(...)` starts from (and `reset()` returns to) -/
+def HistCfg.initBins (cfg : HistCfg) : List Int :=
+  match cfg.makeBins with
+  | some b => b
+  | none => match cfg.bins with
+    | some b => b
+    | none => List.replicate (cfg.edges.length - 1) cfg.initialValue
+
+theorem mkHist_ok (es : List Int) (bins : Option (List Int)) (iv : Int) (h : Hist) (hk : mkHist es bins iv = .ok h) :
+    h = ⟨bins.getD (List.replicate (es.length - 1) iv), 0⟩ ∧ h.bins.length = es.length - 1
+      ∧ es.Pairwise (· < ·) ∧ 2 ≤ es.length := by
+  unfold mkHist at hk
+  rw [← increasing_iff]
+  by_cases h1 : es.length ≤ 1
+  · simp [h1] at hk
+  · by_cases h2 : increasing es = true
+    · cases bins with
+      | none =>
+        simp [h1, h2] at hk
+        subst hk
+        simp [h2]; omega
+      | some b =>
+        by_cases h3 : b.length = es.length - 1
+        · simp [h1, h2, h3] at hk
+          subst hk
+          simp [h2, h3]; omega
+        · simp [h1, h2, h3] at hk
+    · simp [h1, h2] at hk
+
+theorem Histogram.new_ok (cfg : HistCfg) (s0 : HistSt) (h : Histogram.new cfg = .ok s0) :
+    s0 = ⟨⟨cfg.initBins, 0⟩, []⟩ ∧ cfg.initBins.length = cfg.edges.length - 1
+      ∧ cfg.edges.Pairwise (· < ·) ∧ 2 ≤ cfg.edges.length := by
+  unfold Histogram.new at h
+  unfold HistCfg.initBins
+  cases hm : cfg.makeBins <;> cases hb : cfg.bins <;> simp only [hm, hb] at h ⊢ <;> simp at h
+  all_goals
+    split at h <;> simp at h
+    rename_i hh hk
+    obtain ⟨e1, e2, e3, e4⟩ := mkHist_ok _ _ _ _ hk
+    subst h
+    subst e1
+    simp_all
+
+/-- Histogram yields the filled histogram: bin `j` holds its initial content plus the number of filled values
+`x` with `edges[j] ≤ x < edges[j+1]` (`binIndex_spec`), `n_out_of_range` counts the others; the context is
+that of the last filled value (always as a pair) -/
+theorem hist_compute_spec (cfg : HistCfg) (s0 : HistSt) (h : Histogram.new cfg = .ok s0) (vs : List (Item Int)) :
+    ∃ hist : Hist,
+      ((histogramM cfg s0).compute ((histogramM cfg s0).fillAll (histogramM cfg s0).init vs)).2
+        = .ok [⟨hist, some (ctxAfter [] vs)⟩]
+      ∧ hist.bins.length = cfg.edges.length - 1
+      ∧ (∀ j, hist.bins[j]?
+          = (cfg.initBins[j]?).map (fun (c : Int) => c + ((vs.countP (inBin cfg.edges j) : Nat) : Int)))
+      ∧ hist.nOut = ((vs.countP (outOfRange cfg.edges (cfg.edges.length - 1)) : Nat) : Int) := by
+  obtain ⟨hs0, hlen, _, _⟩ := Histogram.new_ok cfg s0 h
+  have hf := hist_fillAll cfg s0 s0 vs
+  refine ⟨((histogramM cfg s0).fillAll s0 vs).hist, ?_, ?_, ?_, ?_⟩
+  · have hc : s0.ctx = [] := by rw [hs0]
+    show Except.ok [Histogram.compute ((histogramM cfg s0).fillAll s0 vs)] = _
+    unfold Histogram.compute
+    rw [hf.2.2.2, hc]
+  · rw [hf.1, hs0]; exact hlen
+  · intro j; rw [hf.2.1 j, hs0]
+  · rw [hf.2.2.1, hs0]; simp [hlen]
+
+/-- `reset()` returns exactly the newly constructed element -/
+theorem hist_reset_is_init (cfg : HistCfg) (s0 : HistSt) (h : Histogram.new cfg = .ok s0) (s : HistSt) :
+    Histogram.reset cfg s = s0 := by
+  unfold Histogram.new at h
+  unfold Histogram.reset
+  cases hm : cfg.makeBins <;> cases hb : cfg.bins <;> simp only [hm, hb] at h ⊢ <;> simp at h
+  all_goals
+    split at h <;> simp at h
+    rename_i hh hk
+    subst h
+    simp [hk]
+
+theorem hist_reset_fresh (cfg : HistCfg) (s0 : HistSt) (h : Histogram.new cfg = .ok s0)
+    (h1 h2 : List (Op (Item Int))) :
+    ((histogramM cfg s0).run ((histogramM cfg s0).run (histogramM cfg s0).init (h1 ++ [Op.reset])).1 h2).2
+      = (histogramM cfg s0).observe h2 :=
+  reset_fresh_of_const (histogramM cfg s0) (histogramM cfg s0) rfl rfl rfl (hist_reset_is_init cfg s0 h) h1 h2
+
+
+theorem sum_modify_succ (l : List Int) (i : Nat) (h : i < l.length) : (l.modify i (· + 1)).sum = l.sum + 1 := by
+  induction l generalizing i with
+  | nil => simp at h
+  | cons a l ih =>
+    cases i with
+    | zero => simp [List.modify_cons]; omega
+    | succ i => simp [ih i (by simpa using h)]; omega
+
+theorem Hist.fill_conserves (es : List Int) (h : Hist) (x : Int) :
+    (Hist.fill es h x).bins.sum + (Hist.fill es h x).nOut = h.bins.sum + h.nOut + 1 := by
+  unfold Hist.fill
+  by_cases h0 : binIndex es x < 0
+  · simp [h0]; omega
+  · by_cases h1 : (binIndex es x).toNat < h.bins.length
+    · simp [h0, h1, sum_modify_succ _ _ h1]; omega
+    · simp [h0, h1]; omega
+
+/-- conservation: every fill is counted exactly once, in a bin or as out of range -/
+theorem hist_conservation (cfg : HistCfg) (s0 s : HistSt) (vs : List (Item Int)) :
+    ((histogramM cfg s0).fillAll s vs).hist.bins.sum + ((histogramM cfg s0).fillAll s vs).hist.nOut
+      = s.hist.bins.sum + s.hist.nOut + vs.length := by
+  induction vs generalizing s with
+  | nil => simp [Machine.fillAll]
+  | cons v vs ih =>
+    rw [fillAll_cons, ih]
+    have e : ((histogramM cfg s0).fill s v).1 = ⟨Hist.fill cfg.edges s.hist v.data, v.context⟩ := rfl
+    rw [e]
+    have := Hist.fill_conserves cfg.edges s.hist v.data
+    simp only [List.length_cons]
+    omega
+
+example : Histogram.new ⟨[0, 1, 3], none, none, 2⟩ = .ok ⟨⟨[2, 2], 0⟩, []⟩ := by rfl
+
+
+section Vectorize
+variable {σ ο : Type}
+
+/-! ### Vectorize -/
+
+theorem Vec.fillGo_length (m : Machine σ (Item Int) ο) (ss : List σ) (ds : List Int) :
+    (Vec.fillGo m ss ds).1.length = ss.length := by
+  induction ss generalizing ds with
+  | nil => simp [Vec.fillGo]
+  | cons s ss ih =>
+    cases ds with
+    | nil => simp [Vec.fillGo]
+    | cons d ds =>
+      simp only [Vec.fillGo]
+      split <;> simp [ih]
+
+theorem Vec.computeGo_length (m : Machine σ (Item Int) ο) (ss : List σ) :
+    (Vec.computeGo m ss).1.length = ss.length := by
+  induction ss with
+  | nil => simp [Vec.computeGo]
+  | cons s ss ih =>
+    simp only [Vec.computeGo]
+    split <;> simp [ih]
+
+theorem Vec.fillGo_inv (m : Machine σ (Item Int) ο) (P : σ → Prop) (hP : ∀ s v, P s → P (m.fill s v).1)
+    (ss : List σ) (ds : List Int) (h : ∀ x ∈ ss, P x) : ∀ x ∈ (Vec.fillGo m ss ds).1, P x := by
+  induction ss generalizing ds with
+  | nil => simp [Vec.fillGo]
+  | cons s ss ih =>
+    cases ds with
+    | nil => simpa [Vec.fillGo] using h
+    | cons d ds =>
+      have hs : P s := h s (by simp)
+      have hss : ∀ x ∈ ss, P x := fun x hx => h x (by simp [hx])
+      simp only [Vec.fillGo]
+      split
+      · intro x hx
+        rcases List.mem_cons.mp hx with rfl | hx
+        · exact hP _ _ hs
+        · exact hss x hx
+      · intro x hx
+        rcases List.mem_cons.mp hx with rfl | hx
+        · exact hP _ _ hs
+        · exact ih ds hss x hx
+
+theorem Vec.computeGo_inv (m : Machine σ (Item Int) ο) (P : σ → Prop) (hP : ∀ s, P s → P (m.compute s).1)
+    (ss : List σ) (h : ∀ x ∈ ss, P x) : ∀ x ∈ (Vec.computeGo m ss).1, P x := by
+  induction ss with
+  | nil => simp [Vec.computeGo]
+  | cons s ss ih =>
+    have hs : P s := h s (by simp)
+    have hss : ∀ x ∈ ss, P x := fun x hx => h x (by simp [hx])
+    simp only [Vec.computeGo]
+    split
+    · intro x hx
+      rcases List.mem_cons.mp hx with rfl | hx
+      · exact hP _ hs
+      · exact hss x hx
+    · intro x hx
+      rcases List.mem_cons.mp hx with rfl | hx
+      · exact hP _ hs
+      · exact ih hss x hx
+
+/-- Vectorize after `reset()`, for an inner accumulator whose `reset` returns its initial state on every state it
+can reach (invariant `P`): every later history shows what it shows on a new `Vectorize` -/
+theorem vec_reset_fresh (m : Machine σ (Item Int) ο) (P : σ → Prop) (hinit : P m.init)
+    (hfill : ∀ s v, P s → P (m.fill s v).1) (hcomp : ∀ s, P s → P (m.compute s).1)
+    (hres : ∀ s, P s → m.reset s = m.init) (dim : Nat)
+    (h1 h2 : List (Op (Item (List Int)))) :
+    ((vectorizeM m dim).run ((vectorizeM m dim).run (vectorizeM m dim).init (h1 ++ [Op.reset])).1 h2).2
+      = (vectorizeM m dim).observe h2 := by
+  apply reset_bisimilar (vectorizeM m dim) (vectorizeM m dim)
+    (fun s => s.inner.length = max dim 1 ∧ ∀ x ∈ s.inner, P x) Eq
+  · refine ⟨by simp [vectorizeM], ?_⟩
+    intro x hx
+    simp only [vectorizeM] at hx
+    rw [List.eq_of_mem_replicate hx]
+    exact hinit
+  · intro s op hs
+    cases op with
+    | fill v =>
+      simp only [Machine.step, vectorizeM, Vec.fill]
+      split <;> exact ⟨by simp [Vec.fillGo_length, hs.1], Vec.fillGo_inv m P hfill _ _ hs.2⟩
+    | compute =>
+      exact ⟨by simp [Machine.step, vectorizeM, Vec.compute, Vec.computeGo_length, hs.1],
+        Vec.computeGo_inv m P hcomp _ hs.2⟩
+    | reset =>
+      refine ⟨by simp [Machine.step, vectorizeM, Vec.reset, hs.1], ?_⟩
+      intro x hx
+      simp only [Machine.step, vectorizeM, Vec.reset, List.mem_map] at hx
+      obtain ⟨y, hy, rfl⟩ := hx
+      rw [hres y (hs.2 y hy)]
+      exact hinit
+  · intro s hs
+    simp only [vectorizeM, Vec.reset]
+    congr 1
+    have key : ∀ l : List σ, (∀ x ∈ l, P x) → l.map m.reset = List.replicate l.length m.init := by
+      intro l
+      induction l with
+      | nil => intro _; rfl
+      | cons a l ih =>
+        intro hall
+        simp only [List.map_cons, List.length_cons, List.replicate_succ]
+        rw [hres a (hall a (by simp)), ih (fun x hx => hall x (by simp [hx]))]
+    rw [← hs.1]
+    exact key _ hs.2
+  · intro s t op hst
+    subst hst
+    exact ⟨rfl, rfl⟩
+
+/-- instances: `Vectorize(Sum(), dim)` and `Vectorize(Mean(...), dim)` -/
+theorem vec_sum_reset_fresh (dim : Nat) (h1 h2 : List (Op (Item (List Int)))) :
+    ((vectorizeM (sumM 0) dim).run ((vectorizeM (sumM 0) dim).run (vectorizeM (sumM 0) dim).init
+      (h1 ++ [Op.reset])).1 h2).2 = (vectorizeM (sumM 0) dim).observe h2 :=
+  vec_reset_fresh (sumM 0) (fun _ => True) trivial (fun _ _ _ => trivial) (fun _ _ => trivial)
+    (fun _ _ => rfl) dim h1 h2
+
+theorem vec_mean_reset_fresh (cfg : MeanCfg) (dim : Nat) (h1 h2 : List (Op (Item (List Int)))) :
+    ((vectorizeM (meanM cfg) dim).run ((vectorizeM (meanM cfg) dim).run (vectorizeM (meanM cfg) dim).init
+      (h1 ++ [Op.reset])).1 h2).2 = (vectorizeM (meanM cfg) dim).observe h2 := by
+  apply vec_reset_fresh (meanM cfg)
+    (fun s => (cfg.useSeq = true → s.sum = 0) ∧ (cfg.useSeq = false → s.seq = ⟨0, []⟩))
+  · simp [meanM]
+  · intro s v hs
+    cases h : cfg.useSeq <;> simp_all [meanM, Mean.fill]
+  · intro s hs
+    exact hs
+  · intro s hs
+    cases h : cfg.useSeq <;> simp_all [meanM, Mean.reset, Sum.reset]
+
+/-- component `i` of the filled vectors, as the inner accumulator is filled with them (bare values) -/
+def column (i : Nat) (vs : List (Item (List Int))) : List (Item Int) :=
+  vs.map (fun v => ⟨v.data.getD i 0, none⟩)
+
+theorem Vec.fillGo_ok (m : Machine σ (Item Int) ο) (hne : ∀ s v, (m.fill s v).2 = none) (ss : List σ)
+    (ds : List Int) (h : ss.length ≤ ds.length) :
+    Vec.fillGo m ss ds = (List.zipWith (fun s d => (m.fill s ⟨d, none⟩).1) ss ds, none) := by
+  induction ss generalizing ds with
+  | nil => simp [Vec.fillGo]
+  | cons s ss ih =>
+    cases ds with
+    | nil => simp at h
+    | cons d ds =>
+      simp only [Vec.fillGo, hne, List.zipWith_cons_cons]
+      rw [ih ds (by simpa using h)]
+
+theorem vec_fillAll (m : Machine σ (Item Int) ο) (hne : ∀ s v, (m.fill s v).2 = none) (dim : Nat)
+    (vs : List (Item (List Int))) (s : VecSt σ) (hlen : ∀ v ∈ vs, s.inner.length ≤ v.data.length) :
+    ((vectorizeM m dim).fillAll s vs).inner.length = s.inner.length
+    ∧ (∀ i, ((vectorizeM m dim).fillAll s vs).inner[i]? = (s.inner[i]?).map (fun si => m.fillAll si (column i vs)))
+    ∧ ((vectorizeM m dim).fillAll s vs).ctx = ctxAfter s.ctx vs := by
+  induction vs generalizing s with
+  | nil =>
+    refine ⟨rfl, ?_, rfl⟩
+    intro i
+    simp only [Machine.fillAll, List.foldl_nil, column, List.map_nil]
+    cases s.inner[i]? <;> rfl
+  | cons v vs ih =>
+    have hv : s.inner.length ≤ v.data.length := hlen v (by simp)
+    have e : ((vectorizeM m dim).fill s v).1
+        = ⟨List.zipWith (fun s d => (m.fill s ⟨d, none⟩).1) s.inner v.data, v.context⟩ := by
+      simp [vectorizeM, Vec.fill, Vec.fillGo_ok m hne _ _ hv]
+    have hl : (List.zipWith (fun s d => (m.fill s ⟨d, none⟩).1) s.inner v.data).length = s.inner.length := by
+      simp [List.length_zipWith]; omega
+    rw [fillAll_cons, e]
+    have := ih ⟨List.zipWith (fun s d => (m.fill s ⟨d, none⟩).1) s.inner v.data, v.context⟩
+      (by intro w hw; rw [hl]; exact hlen w (by simp [hw]))
+    refine ⟨by rw [this.1, hl], ?_, by rw [this.2.2, ctxAfter_cons]⟩
+    intro i
+    rw [this.2.1 i]
+    simp only [List.getElem?_zipWith, column, List.map_cons, fillAll_cons]
+    by_cases hi : i < s.inner.length
+    · have hi' : i < v.data.length := by omega
+      simp [List.getElem?_eq_getElem hi, List.getElem?_eq_getElem hi', List.getD_eq_getElem?_getD]
+    · simp [List.getElem?_eq_none (by omega : s.inner.length ≤ i)]
+
+
+/-- the results of the started generators: all of them, or the first exception -/
+def firstErr {α : Type} : List (Except Err α) → Except Err (List α)
+  | [] => .ok []
+  | .error e :: _ => .error e
+  | .ok y :: rest => match firstErr rest with
+    | .error e => .error e
+    | .ok ys => .ok (y :: ys)
+
+theorem Vec.computeGo_spec (m : Machine σ (Item Int) ο) (ss : List σ) :
+    (Vec.computeGo m ss).2 = firstErr (ss.map (fun s => (m.compute s).2)) := by
+  induction ss with
+  | nil => rfl
+  | cons s ss ih =>
+    simp only [Vec.computeGo, List.map_cons]
+    cases h : (m.compute s).2 with
+    | error e => simp [firstErr]
+    | ok ys =>
+      cases hh : firstErr (ss.map (fun s => (m.compute s).2)) <;> simp [firstErr, ih, hh]
+
+/-- row `i` of `zip_longest`: the `i`-th result of every component, `None` where a component has fewer -/
+theorem zipLongest_row {α : Type} (ls : List (List α)) (i : Nat) (h : i < (zipLongest ls).length) :
+    (zipLongest ls)[i] = ls.map (fun l => l[i]?) := by
+  simp [zipLongest]
+
+theorem inner_eq_of_pointwise (n : Nat) (l : List σ) (f : Nat → σ)
+    (hl : l.length = n) (hp : ∀ i, i < n → l[i]? = some (f i)) :
+    l = (List.range n).map f := by
+  apply List.ext_getElem?
+  intro i
+  by_cases hi : i < n
+  · rw [hp i hi]; simp [hi]
+  · rw [List.getElem?_eq_none (by omega), List.getElem?_eq_none (by simp; omega)]
+
+/-- Vectorize yields the component-wise result of its inner accumulator: component `i` of every yielded
+tuple comes from `inner.compute()` after the inner accumulator was filled with component `i` of every
+filled vector (bare); tuples are padded with `None` (`zip_longest`), the first exception of a component
+propagates, and every tuple carries the context of the last filled vector -/
+theorem vec_compute_spec (m : Machine σ (Item Int) ο) (hne : ∀ s v, (m.fill s v).2 = none) (dim : Nat)
+    (vs : List (Item (List Int))) (hlen : ∀ v ∈ vs, max dim 1 ≤ v.data.length) :
+    ((vectorizeM m dim).compute ((vectorizeM m dim).fillAll (vectorizeM m dim).init vs)).2 =
+      match firstErr ((List.range (max dim 1)).map
+              (fun i => (m.compute (m.fillAll m.init (column i vs))).2)) with
+      | .error e => .error e
+      | .ok yss => .ok ((zipLongest yss).map (fun row => withCtx row (ctxAfter [] vs))) := by
+  have h0 : (vectorizeM m dim).init = ⟨List.replicate (max dim 1) m.init, []⟩ := rfl
+  have hf := vec_fillAll m hne dim vs (vectorizeM m dim).init (by rw [h0]; simpa using hlen)
+  rw [h0] at hf
+  have hinner := inner_eq_of_pointwise (max dim 1) _ (fun i => m.fillAll m.init (column i vs))
+    (by rw [hf.1]; simp) (by
+      intro i hi
+      rw [hf.2.1 i]
+      simp [hi])
+  rw [h0]
+  show (Vec.compute m _).2 = _
+  unfold Vec.compute
+  simp only [Vec.computeGo_spec, hinner, hf.2.2, List.map_map, Function.comp_def]
+  cases firstErr ((List.range (max dim 1)).map
+              (fun i => (m.compute (m.fillAll m.init (column i vs))).2)) <;> rfl
+
+
+theorem foldl_max_singletons {α : Type} (as : List α) (n : Nat) :
+    (as.map (fun a => [a])).foldl (fun n l => max n l.length) n = if as = [] then n else max n 1 := by
+  induction as generalizing n with
+  | nil => rfl
+  | cons a as ih =>
+    simp only [List.map_cons, List.foldl_cons, ih, List.length_singleton]
+    by_cases h : as = [] <;> simp [h] <;> omega
+
+theorem zipLongest_singletons {α : Type} (as : List α) (h : as ≠ []) :
+    zipLongest (as.map (fun a => [a])) = [as.map some] := by
+  simp [zipLongest, foldl_max_singletons, h, List.range_succ]
+
+theorem firstErr_ok {α : Type} (ys : List α) : firstErr (ys.map Except.ok) = .ok ys := by
+  induction ys with
+  | nil => rfl
+  | cons y ys ih => simp [firstErr, ih]
+
+/-- `Vectorize(Sum(), dim)`: one tuple of the component sums, with the context of the last filled vector -/
+theorem vec_sum_compute_spec (dim : Nat) (vs : List (Item (List Int)))
+    (hlen : ∀ v ∈ vs, max dim 1 ≤ v.data.length) :
+    ((vectorizeM (sumM 0) dim).compute ((vectorizeM (sumM 0) dim).fillAll (vectorizeM (sumM 0) dim).init vs)).2 =
+      .ok [withCtx ((List.range (max dim 1)).map
+              (fun i => some (⟨dataSum (column i vs), none⟩ : Item Int))) (ctxAfter [] vs)] := by
+  rw [vec_compute_spec (sumM 0) (fun _ _ => rfl) dim vs hlen]
+  have : (List.range (max dim 1)).map (fun i => ((sumM 0).compute ((sumM 0).fillAll (sumM 0).init (column i vs))).2)
+      = ((List.range (max dim 1)).map (fun i => [(⟨dataSum (column i vs), none⟩ : Item Int)])).map Except.ok := by
+    simp only [List.map_map]
+    apply List.map_congr_left
+    intro i _
+    have h := sum_compute_spec 0 (column i vs)
+    simp only [Function.comp] 
+    rw [h]
+    have hc : ctxAfter [] (column i vs) = [] := by
+      have := ctxAfter_bare [] (vs.map (fun v => (⟨v.data.getD i 0, none⟩ : Item Int)))
+      simp only [bare, List.map_map, Function.comp_def] at this
+      simp only [column]
+      rw [this]; split <;> rfl
+    simp [hc, withCtx]
+  rw [this, firstErr_ok]
+  have hne : (List.range (max dim 1)) ≠ [] := by
+    intro h
+    have := congrArg List.length h
+    simp at this
+  have := zipLongest_singletons ((List.range (max dim 1)).map
+    (fun i => (⟨dataSum (column i vs), none⟩ : Item Int))) (by simp)
+  simp only [List.map_map, Function.comp_def] at this
+  simp only [this, List.map_cons, List.map_nil]
+
+example : ((vectorizeM (sumM 0) 2).compute ((vectorizeM (sumM 0) 2).fillAll (vectorizeM (sumM 0) 2).init
+    [⟨[1, 2], none⟩, ⟨[3, 5, 9], some [("a", some 1)]⟩])).2
+    = .ok [⟨[some ⟨4, none⟩, some ⟨7, none⟩], some [("a", some 1)]⟩] := by rfl
+
+
+end Vectorize
+
+/-! ### Graph -/
+
+theorem Pt.le_trans (a b c : Pt) (h1 : Pt.le a b = true) (h2 : Pt.le b c = true) : Pt.le a c = true := by
+  simp only [Pt.le, Bool.or_eq_true, Bool.and_eq_true, decide_eq_true_eq] at *
+  omega
+
+theorem Pt.le_total (a b : Pt) : (Pt.le a b || Pt.le b a) = true := by
+  simp only [Pt.le, Bool.or_eq_true, Bool.and_eq_true, decide_eq_true_eq]
+  omega
+
+theorem graph_fillAll (cfg : GraphCfg) (s : GraphSt) (vs : List (Item Pt)) :
+    (graphM cfg).fillAll s vs = ⟨s.points ++ vs.map (·.data), s.scale, ctxAfter s.ctx vs⟩ := by
+  induction vs generalizing s with
+  | nil => simp [Machine.fillAll, ctxAfter]
+  | cons v vs ih =>
+    rw [fillAll_cons, ih, ctxAfter_cons]
+    simp [graphM, Graph.fill]
+
+/-- what `Graph.compute` yields after filling `vs` into a new graph: `LenaRuntimeError` when the last context
+has a scale different from the initial one; otherwise the filled points (sorted if `sort`), the scale of the
+last context (else the initial one), and the last context extended by the graph's own keys `scale` and
+(when there are points) `dim` -/
+theorem graph_compute_spec (cfg : GraphCfg) (vs : List (Item Pt)) :
+    ((graphM cfg).compute ((graphM cfg).fillAll (graphM cfg).init vs)).2 =
+      let last := ctxAfter [] vs
+      let pts := if cfg.sort then (vs.map (·.data)).mergeSort Pt.le else vs.map (·.data)
+      match last.get "scale", cfg.scale0 with
+      | some c, some sc =>
+        if sc != c then .error .runtimeError
+        else .ok [⟨pts, some c, if pts.isEmpty then (last.set "scale" cfg.scale0).set "scale" (some c)
+                                  else ((last.set "scale" cfg.scale0).set "scale" (some c)).set "dim" (some 1)⟩]
+      | some c, none =>
+        .ok [⟨pts, some c, if pts.isEmpty then (last.set "scale" none).set "scale" (some c)
+                            else ((last.set "scale" none).set "scale" (some c)).set "dim" (some 1)⟩]
+      | none, sc =>
+        .ok [⟨pts, sc, if pts.isEmpty then (last.set "scale" sc).set "scale" sc
+                        else ((last.set "scale" sc).set "scale" sc).set "dim" (some 1)⟩] := by
+  rw [graph_fillAll]
+  simp only [graphM, Graph.compute, List.nil_append]
+  cases h1 : (ctxAfter [] vs).get "scale" <;> cases h2 : cfg.scale0 <;> simp
+  split <;> simp_all
+
+/-- the yielded points are the filled points: a permutation of them, sorted lexicographically when `sort` -/
+theorem graph_points (cfg : GraphCfg) (vs : List (Item Pt)) :
+    let pts := if cfg.sort then (vs.map (·.data)).mergeSort Pt.le else vs.map (·.data)
+    pts.Perm (vs.map (·.data)) ∧ (cfg.sort = true → pts.Pairwise (fun a b => Pt.le a b = true)) := by
+  cases h : cfg.sort
+  · simp
+  · simp only [if_true]
+    exact ⟨List.mergeSort_perm _ _, fun _ => List.pairwise_mergeSort Pt.le_trans Pt.le_total _⟩
+
+/-- `Graph.reset` (as in /repo now: the initial scale is restored) returns the newly constructed graph -/
+theorem graph_reset_is_init (cfg : GraphCfg) (hr : cfg.resetScale = true) (s : GraphSt) :
+    (graphM cfg).reset s = (graphM cfg).init := by
+  simp [graphM, Graph.reset, hr]
+
+theorem graph_reset_fresh (cfg : GraphCfg) (hr : cfg.resetScale = true) (h1 h2 : List (Op (Item Pt))) :
+    ((graphM cfg).run ((graphM cfg).run (graphM cfg).init (h1 ++ [Op.reset])).1 h2).2 = (graphM cfg).observe h2 :=
+  reset_fresh_of_const (graphM cfg) (graphM cfg) rfl rfl rfl (graph_reset_is_init cfg hr) h1 h2
+
+/-- the defect of the pinned `Graph.reset` (before 7591aa2), machine-checked: a scale adopted from the flow
+survives the reset, so the reset graph yields another context than a new one -/
+theorem graph_pinned_reset_not_fresh :
+    let m := graphM ⟨none, false, false⟩
+    (m.run (m.run m.init ([.fill ⟨(0, 0), some [("scale", some 5)]⟩, .compute] ++ [Op.reset])).1 [.compute]).2
+      ≠ m.observe [.compute] := by
+  intro m h
+  simp [m, Machine.run, Machine.step, Machine.observe, graphM, Graph.compute, Graph.fill, Graph.reset,
+    Ctx.get, Ctx.set, Item.context] at h
+
+example : (graphM ⟨none, false, true⟩).observe
+    [.fill ⟨(3, 1), some [("scale", some 5)]⟩, .fill ⟨(1, 2), some [("scale", some 5)]⟩, .compute, .reset, .compute]
+    = [.filled none, .filled none,
+       .computed (.ok [⟨[(3, 1), (1, 2)], some 5, [("scale", some 5), ("dim", some 1)]⟩]),
+       .wasReset, .computed (.ok [⟨[], none, [("scale", none)]⟩])] := by
+  rfl
+
+
+/-! ### Mean(DSum()) -/
+
+def bareDy (vs : List (Item Dy)) : List (Item Dy) := vs.map (fun v => ⟨v.data, none⟩)
+
+theorem dySum_bareDy (vs : List (Item Dy)) : dySum (bareDy vs) = dySum vs := by
+  simp [dySum, bareDy, List.map_map, Function.comp_def]
+
+theorem ctxAfter_bareDy (c : Ctx) (vs : List (Item Dy)) : ctxAfter c (bareDy vs) = if vs = [] then c else [] := by
+  induction vs generalizing c with
+  | nil => rfl
+  | cons v vs ih => simp only [bareDy, List.map_cons] at *; rw [ctxAfter_cons, ih]; simp [Item.context]
+
+theorem meand_fillAll (poe : Bool) (s : MeanDSt) (vs : List (Item Dy)) :
+    (meanDM poe).fillAll s vs = ⟨(dsumM ⟨0, 0⟩).fillAll s.seq (bareDy vs), s.count + vs.length, ctxAfter s.ctx vs⟩ := by
+  induction vs generalizing s with
+  | nil => simp [Machine.fillAll, ctxAfter, bareDy]
+  | cons v vs ih =>
+    rw [fillAll_cons, ih, ctxAfter_cons]
+    simp [meanDM, MeanD.fill, bareDy, fillAll_cons, dsumM]
+    omega
+
+/-- `Mean(DSum())` yields the exact sum of the filled floats divided by their number, with the last context;
+with nothing filled it raises `LenaZeroDivisionError`, or yields nothing if `pass_on_empty` -/
+theorem meand_compute_spec (poe : Bool) (vs : List (Item Dy)) :
+    ((meanDM poe).compute ((meanDM poe).fillAll (meanDM poe).init vs)).2 =
+      if vs = [] then (if poe then .ok [] else .error .zeroDivision)
+      else .ok [withCtx (dySum vs / (vs.length : Rat)) (ctxAfter [] vs)] := by
+  rw [meand_fillAll]
+  cases vs with
+  | nil => simp [meanDM, MeanD.compute]
+  | cons v vs =>
+    have h := dsum_fillAll ⟨0, 0⟩ (meanDM poe).init.seq (bareDy (v :: vs))
+    have h0 : (meanDM poe).init.seq.total.toRat = 0 := by simp [meanDM, Dec.toRat]
+    simp only [meanDM, MeanD.compute, DSum.compute] at h ⊢
+    simp only [meanDM] at h0
+    rw [h.2.1, ctxAfter_bareDy]
+    simp [withCtx, Item.context, Ctx.update_nil, h.1, h0, dySum_bareDy, Rat.zero_add]
+
+theorem meand_reset_fresh (poe : Bool) (h1 h2 : List (Op (Item Dy))) :
+    ((meanDM poe).run ((meanDM poe).run (meanDM poe).init (h1 ++ [Op.reset])).1 h2).2 = (meanDM poe).observe h2 := by
+  apply reset_bisimilar (meanDM poe) (meanDM poe) (fun _ => True)
+    (fun s t => s.seq.total = t.seq.total ∧ s.seq.ctx = t.seq.ctx ∧ s.count = t.count ∧ s.ctx = t.ctx)
+    trivial (fun _ _ _ => trivial)
+  · intro s _
+    simp [meanDM, MeanD.reset, DSum.reset]
+  · intro s t op hst
+    obtain ⟨e1, e2, e3, e4⟩ := hst
+    cases op with
+    | fill v => simp [Machine.step, meanDM, MeanD.fill, DSum.fill, DSum.addLoop_total, e1, e3]
+    | compute => simp [Machine.step, meanDM, MeanD.compute, DSum.compute, e1, e2, e3, e4]
+    | reset => simp [Machine.step, meanDM, MeanD.reset, DSum.reset]
+
+
+/-! ### non-vacuity of the hypotheses used above -/
+
+example : binIndex [0, 1, 3] 2 = 1 ∧ ([0, 1, 3] : List Int).Pairwise (· < ·) := by decide
+example : ∀ s v, ((sumM 0).fill s v).2 = none := fun _ _ => rfl
+example : ((groupByM Int Int).compute ((groupByM Int Int).fillAll (groupByM Int Int).init
+    [(1, 10), (2, 20), (1, 30)])).2 = .ok [.group [10, 30], .group [20]] := by rfl
 
 end Lena.C09
